@@ -489,6 +489,38 @@ def gen_date(rng, size):
     return out + rng.choice([b"Z", b"z", b"+0000", b"-0800"])
 
 
+def gen_date_strict(rng):
+    """(text, ' expect_date=<rfc|iso>,<unix time>'): canonical RFC 822 / ISO 8601 texts with an explicit UTC designator or numeric
+    offset, inside 1970..2037, so that the verdict, the utc flag and the timestamp are determined"""
+    import calendar
+    Y, M, D = rng.randint(1970, 2037), rng.randint(1, 12), rng.randint(1, 28)
+    h, m, sec = rng.randint(0, 23), rng.randint(0, 59), rng.randint(0, 59)
+    ts = calendar.timegm((Y, M, D, h, m, sec, 0, 0, 0))
+    oh, om, sign = rng.randint(0, 13), rng.choice([0, 30, 45]), rng.choice([1, -1])
+    off = sign * (oh * 3600 + om * 60)
+    if rng.random() < 0.5:
+        # always with the weekday: without it the current reader drops the first day digit ("11 Mar 2000 ..." is read as
+        # day 1; DESIGN.md section 7, O1 — no property covers it, so it is kept out of the expected-value stream)
+        wd = WD[calendar.weekday(Y, M, D)] + b", "
+        if rng.random() < 0.6:
+            tz, o = rng.choice([b"GMT", b"UT", b"UTC", b"Z", b"gmt"]), 0
+        else:
+            tz, o = b"%s%02d%02d" % (b"+" if sign > 0 else b"-", oh, om), off
+        txt = wd + b"%02d %s %04d %02d:%02d:%02d %s" % (D, MON[M - 1], Y, h, m, sec, tz)
+        return txt, " expect_date=rfc,%d" % (ts - o)
+    basic = rng.random() < 0.4
+    d = (b"%04d%02d%02d" if basic else b"%04d-%02d-%02d") % (Y, M, D)
+    if rng.random() < 0.15:
+        return d, " expect_date=iso,%d" % calendar.timegm((Y, M, D, 0, 0, 0, 0, 0, 0))
+    t = (b"%02d%02d%02d" if basic else b"%02d:%02d:%02d") % (h, m, sec)
+    frac = rng.choice([b"", b"", b".5", b",123456", b".000"])
+    if rng.random() < 0.5:
+        z, o = rng.choice([b"Z", b"z"]), 0
+    else:
+        z, o = (b"%s%02d%02d" if rng.random() < 0.5 else b"%s%02d:%02d") % (b"+" if sign > 0 else b"-", oh, om), off
+    return d + rng.choice([b"T", b"t", b" "]) + t + frac + z, " expect_date=iso,%d" % (ts - o)
+
+
 def gen_b64(rng, size):
     raw = rng.randbytes((size * 3) // 4)
     enc = bytearray(base64.b64encode(raw))
@@ -676,6 +708,11 @@ def _gen_batch(args):
     for k in range(0, len(plan), BATCH):
         ops, streams = [], {}
         for p in plan[k:k + BATCH]:
+            if p == "date" and rng.random() < 0.15:
+                data, o = gen_date_strict(rng)
+                ops.append("p date %s%s" % (hx(data), o))
+                streams["date/strict"] = streams.get("date/strict", 0) + 1
+                continue
             if p == "xml" and rng.random() < 0.15:
                 data, o = gen_xml_strict(rng)
                 ops.append("p xml %s%s" % (hx(data), o))
@@ -885,6 +922,30 @@ def _reference_errors(op, ls):
         if not any(l.startswith(head) or l.startswith(head.rstrip()) for l in ls):
             return ["nesting limit: expected `%s`" % head.strip()]
         return []
+    want_date = [x[12:] for x in t if x.startswith("expect_date=")]
+    if want_date:
+        kind, ts = want_date[0].split(",")
+        out = []
+        for call in ("auto", "buf_auto", "rfc822" if kind == "rfc" else "iso8601"):
+            head = "P date blk %s OK utc=1 ts=%s " % (call, ts)
+            if not any(l.startswith(head) for l in ls):
+                out.append("canonical UTC date-time, expected `%s`" % head.strip())
+        return out
+    if t[0] == "p" and parser == "hex":
+        try:
+            data = b"" if t[2] == "-" else bytes.fromhex(t[2])
+        except ValueError:
+            return []
+        if all(c in _HEXV for c in data):
+            txt = data.decode()
+            raw = bytes.fromhex(txt if len(txt) % 2 == 0 else "0" + txt)
+            h = 14695981039346656037
+            for b in raw:
+                h = ((h ^ b) * 1099511628211) & 0xFFFFFFFFFFFFFFFF
+            want = "P hex blk decode_exact OK outlen=%d fnv=%016x " % (len(raw), h)
+        else:
+            want = "P hex blk decode_exact ERR AWS_ERROR_INVALID_HEX_STR "
+        return [] if any(l.startswith(want) for l in ls) else ["hex text, expected `%s`" % want.strip()]
     if t[0] != "p" or parser not in ("xml", "query", "u64", "cbor", "cbor_consume"):
         return []
     if parser == "xml":
@@ -1107,7 +1168,7 @@ def _minimise_bytes(case, fails, budget_s=12):
     if len(case.ops) != 1:
         return
     t = case.ops[0].split(" ")
-    if len(t) < 3 or t[0] != "p" or t[1] == "cbor_consume_nested" or t[2] == "-" or any(x.startswith("expect=") for x in t[3:]):
+    if len(t) < 3 or t[0] != "p" or t[1] == "cbor_consume_nested" or t[2] == "-" or any(x.startswith("expect") for x in t[3:]):
         return
     data = bytes.fromhex(t[2])
     mk = lambda d: " ".join(t[:2] + [hx(d)] + t[3:])
@@ -1304,7 +1365,9 @@ MANIFEST = dict(
           "error-channel check, watchdog, and framing checks against independent references — XML node/body counts of generated in-limit "
           "documents with their callback programs, CBOR element / item counts of well-formed input (lib/cbor_ref.py), query parameter "
           "boundaries, unsigned-integer values, URI components tiling the text, AVX2-dispatch vs portable base64 verdicts, a reused UTF-8 "
-          "decoder behaving like a fresh one, dt.tz staying NUL-terminated; 160 000 inputs quick, 3.2 M thorough). cJSON (aws_json_value_new_from_string), what sscanf does inside libc (UUID, IPv4) and the AVX2 base64 "
+          "decoder behaving like a fresh one, dt.tz staying NUL-terminated, verdict / utc flag / timestamp of canonical UTC date-times, "
+          "hex output against a reference, URI user/password/host/delimiter framing, nesting limits of XML (default and non-default "
+          "max_depth) and cJSON with limit-evasion shapes up to 250 000 levels; 160 000 inputs quick, 3.2 M thorough). cJSON (aws_json_value_new_from_string), what sscanf does inside libc (UUID, IPv4) and the AVX2 base64 "
           "codec have no model: for them C04 is decided by the sanitizer-monitored execution alone. Open finding F6: "
           "aws_cbor_decoder_consume_next_whole_data_item recurses once per nesting level without a limit (stack overflow beyond ~52 000 "
           "levels in the ASan build, ~131 000 at -O2, 8 MiB stack); CBOR totality is claimed only below that depth."),
